@@ -11,7 +11,8 @@ from vf.run import SubCheck
 RULE = ("Hypothesis draws a system (basis of 1-3 generalized mixed-type shells, l 0..4 (ERI: l <= 2, exponents 0.1-10), points, "
         "point charges / nuclei, moment origin, density matrix) and a rigid motion r' = Q r + t: ALL 48 signed axis permutations "
         "are enumerated as shards (with a drawn translation up to 10 bohr), plus drawn general orthogonal matrices (QR of a random "
-        "matrix, det +-1).  Oracle (metamorphic, R6 representation matrices D): values phi(r) = D phi'(r'); gradients as vectors; "
+        "matrix, det +-1).  Oracle (metamorphic, R6 representation matrices D): values phi(r) = D phi'(r'); gradients as vectors, "
+        "second and third derivatives as rank-2/3 tensors; "
         "arbitrary derivative orders and moments under signed permutations with permuted order triples and signs; S, T, V (charges "
         "moved), ERI: A = (D x ..) A'; momentum as a vector, angular momentum as a pseudo-vector with L = det(Q) Q^T (L' - t x p'); "
         "moments of total order <= 2 as tensors under general rotations; density, Laplacian, t+, ESP invariant; density gradient / "
